@@ -32,60 +32,65 @@ def _top_index(fi: FuncInfo, pred) -> Optional[int]:
 def check(repo: Repo, R) -> None:
     rule = "C06.1-definition-before-use"
     fm = repo.func(F_EXPORT, "ProtoExporter.export_module")
-    i_inst = _top_index(fm, lambda st: isinstance(st, ast.For) and ast.unparse(st.iter) == "module.instances.values()" and bool(pat.find("self.export_instance($I)", st)))
-    i_app = _top_index(fm, lambda st: bool(pat.find("self.pkg.modules.append(pmod)", st)) and isinstance(st, ast.Expr))
-    i_id = _top_index(fm, lambda st: bool(pat.find("self.modules_by_id[id(module)] = $M", st)))
-    i_nm = _top_index(fm, lambda st: bool(pat.find("self.modules_by_name[pmod.name] = $M", st)))
-    if None in (i_inst, i_app, i_id, i_nm):
-        raise AnalysisError(f"idiom-unknown: instance loop / package append / cache stores not found at the top level of {fm.site}")
-    R.check(i_inst < i_app, rule, key_of(fm, "children-first"), fm.site,
-            f"a module is appended to the package (statement {i_app}) after all of its instances' targets were exported (statement {i_inst})",
+    loops = [n for n in au.walk_no_nested(fm.node) if isinstance(n, ast.For) and ast.unparse(n.iter) == "module.instances.values()" and bool(shared.calls_matching(n, f"self.export_instance({ast.unparse(n.target)})", use_prov=False))]
+    apps = pat.find("self.pkg.modules.append($PM)", fm.node)
+    ids = pat.find("self.modules_by_id[id(module)] = $M", fm.node)
+    nms = pat.find("self.modules_by_name[$N] = $M", fm.node)
+    if not (len(loops) == 1 and len(apps) == 1 and len(ids) == 1 and len(nms) == 1):
+        raise AnalysisError(f"idiom-unknown: instance loop / package append / cache stores not found in {fm.site}")
+    i_inst, i_app, i_id, i_nm = loops[0], apps[0][0], ids[0][0], nms[0][0]
+    R.check(shared.executes_before(fm.node, i_inst, i_app), rule, key_of(fm, "children-first"), fm.site,
+            f"a module is appended to the package (line {i_app.lineno}) after all of its instances' targets were exported (loop at line {i_inst.lineno})",
             why="a module appears in the package before a module it instantiates: from_proto and the netlisters meet an undefined reference")
-    R.check(i_inst < i_id and i_inst < i_nm, rule, key_of(fm, "cache-after-completion"), fm.site,
-            f"the by-id / by-name maps are filled (statements {i_id}, {i_nm}) only after the module's own export completed", why="a recursive reference returns a half-built module")
+    R.check(shared.executes_before(fm.node, i_inst, i_id) and shared.executes_before(fm.node, i_inst, i_nm), rule, key_of(fm, "cache-after-completion"), fm.site,
+            f"the by-id / by-name maps are filled (lines {i_id.lineno}, {i_nm.lineno}) only after the module's own export completed", why="a recursive reference returns a half-built module")
     fi = repo.func(F_EXPORT, "ProtoExporter.export_instance")
-    defs = au.local_defs(fi.node)
     ok = False
-    for c, b in pat.find("pinst.module.local = $P.name", fi.node):
-        src = defs.get(ast.unparse(b["P"]))
-        ok = src is not None and ast.unparse(src) == "self.export_module(inst.of)"
+    for c, b in pat.find("pinst.module.local = $N", fi.node):
+        ok = shared.prov_text(fi.node, b["N"]) == "self.export_module(inst.of).name"
     R.check(ok, rule, key_of(fi, "local-ref"), fi.site, f"an instance of a Module refers to the name under which that module was just exported (export_module(inst.of).name): {ok}", why="the instance names a module that is not in the package")
-    ext = pat.find("self.export_external_module(call.module)", fi.node)
-    nm = pat.find("pinst.module.external.name = call.module.name", fi.node)
-    dm = pat.find("pinst.module.external.domain = call.module.domain or ''", fi.node)
-    ok = bool(ext) and bool(nm) and bool(dm) and ext[0][0].lineno < nm[0][0].lineno
+    ext = pat.find("self.export_external_module(inst.of.module)", fi.node)
+    nm = pat.find("pinst.module.external.name = inst.of.module.name", fi.node)
+    dm = pat.find("pinst.module.external.domain = inst.of.module.domain or ''", fi.node)
+    ok = bool(ext) and bool(nm) and bool(dm) and shared.executes_before(fi.node, ext[0][0], nm[0][0])
     R.check(ok, rule, key_of(fi, "external-ref"), fi.site, f"an instance of an external module first declares it in the package, then refers to it by its own (domain, name): {ok}", why="the instance refers to an external module the package does not declare")
     fe = repo.func(F_EXPORT, "ProtoExporter.export_external_module")
-    memo = any(isinstance(n, ast.If) and ast.unparse(n.test) == "id(emod) in self.ext_modules" and isinstance(n.body[-1], ast.Return) for n in au.walk_no_nested(fe.node))
-    app = bool(pat.find("self.pkg.ext_modules.append(pmod)", fe.node)) and bool(pat.find("self.ext_modules[id(emod)] = pmod", fe.node))
+    apps = pat.find("self.pkg.ext_modules.append($PM)", fe.node)
+    recs = pat.find("self.ext_modules[id(emod)] = $PM", fe.node)
+    app = len(apps) == 1 and len(recs) == 1 and ast.unparse(apps[0][1]["PM"]) == ast.unparse(recs[0][1]["PM"])
+    # declared once: everything that declares runs only when id(emod) is not yet in the map
+    memo = app and all(shared.cond_match(fe.node, x, "id(emod) in self.ext_modules", False, use_prov=False) for x in (apps[0][0], recs[0][0]))
     R.check(memo and app, rule, key_of(fe), fe.site, f"each external module is declared once ({memo}) and appended to the package ({app})", why="an external module is declared twice, or never")
 
     # ---- 2 uniqueness
     rule = "C06.2-unique-names"
-    first = [st for st in fm.node.body if not (isinstance(st, ast.Expr) and isinstance(st.value, ast.Constant))][0]
-    memo = isinstance(first, ast.If) and ast.unparse(first.test) == "id(module) in self.modules_by_id" and ast.unparse(first.body[-1]) == "return self.modules_by_id[id(module)].pmod"
+    # everything that builds or registers runs only when id(module) is not in the map; the hit returns the recorded export
+    hit = [r for r in shared.returns_of(fm.node) if ast.unparse(r.value) == "self.modules_by_id[id(module)].pmod" and shared.cond_match(fm.node, r, "id(module) in self.modules_by_id", True, use_prov=False)]
+    memo = len(hit) == 1 and all(shared.cond_match(fm.node, x, "id(module) in self.modules_by_id", False, use_prov=False) for x in (i_app, i_id, i_nm))
     R.check(memo, rule, key_of(fm, "memo"), fm.site, f"a module already exported in this call is returned, not exported again: {memo}", why="a shared sub-module is emitted twice under one name")
     fn = repo.func(F_EXPORT, "ProtoExporter.export_module_name")
-    g = any(isinstance(n, ast.If) and ast.unparse(n.test) == "mname in self.modules_by_name" and au.raises(n.body) for n in au.walk_no_nested(fn.node))
-    q = bool(pat.find("mname = module_qualname(module)", fn.node))
-    used = bool(pat.find("pmod.name = self.export_module_name(module)", fm.node))
+    rets = shared.returns_of(fn.node)
+    q = len(rets) == 1 and shared.prov_text(fn.node, rets[0].value) == "module_qualname(module)"
+    g = q and any(isinstance(n, ast.If) and isinstance(n.test, ast.Compare) and isinstance(n.test.ops[0], ast.In) and ast.unparse(n.test.comparators[0]) == "self.modules_by_name"
+                  and shared.prov_text(fn.node, n.test.left) == "module_qualname(module)" and au.raises(n.body) and any(t is n.test and not pol for t, pol in shared.path_conditions(fn.node, rets[0])) for n in au.walk_no_nested(fn.node))
+    used = any(shared.prov_text(fm.node, b["V"]) == "self.export_module_name(module)" for _c, b in pat.find("$PM.name = $V", fm.node)) and shared.prov_text(fm.node, nms[0][1]["N"]).endswith(".name") and shared.prov_text(fm.node, nms[0][1]["N"]).startswith("vckt.Module()")
     R.check(g and q and used, rule, key_of(fn), fn.site, f"module names are the qualified name ({q}), refused when already taken by another module ({g}), and used as the exported name ({used})", why="two different modules share one exported name")
-    mm = bool(pat.find("mapping = ModuleMapping(module, pmod)", fm.node))
+    mm = shared.prov_text(fm.node, ids[0][1]["M"], depth=1) == "ModuleMapping(module, pmod)" and shared.prov_text(fm.node, nms[0][1]["M"], depth=1) == "ModuleMapping(module, pmod)"
     R.check(mm, rule, key_of(fm, "id-key-pinned"), fm.site, f"the id()-keyed map entry holds the module itself (its address cannot be reused during the export): {mm}", why="an id() collision returns another module's export")
 
     # ---- 3 signals ⊇ ports
     rule = "C06.3-signals-and-ports"
-    sig_loop = [st for st in fm.node.body if isinstance(st, ast.For) and ast.unparse(st.iter) == "list(module.signals.values()) + list(module.ports.values())"]
-    ok = len(sig_loop) == 1 and bool(pat.find("vckt.Signal(name=sig.name, width=sig.width)", sig_loop[0])) and bool(pat.find("pmod.signals.append($S)", sig_loop[0]))
+    sig_loop = [st for st in au.walk_no_nested(fm.node) if isinstance(st, ast.For) and shared.prov_text(fm.node, st.iter) == "list(module.signals.values()) + list(module.ports.values())"]
+    ok = len(sig_loop) == 1 and isinstance(sig_loop[0].target, ast.Name) and bool(shared.calls_matching(sig_loop[0], f"pmod.signals.append(vckt.Signal(name={sig_loop[0].target.id}.name, width={sig_loop[0].target.id}.width))"))
     R.check(ok, rule, key_of(fm, "signals"), fm.site, f"the signal list is built from the module's internal signals and its ports, each with its own name and width: {ok}", why="a port has no declared signal, or a signal is declared with another width")
-    port_loop = [st for st in fm.node.body if isinstance(st, ast.For) and ast.unparse(st.iter) == "module.ports.values()"]
-    ok = len(port_loop) == 1 and bool(pat.find("pmod.ports.append(export_port(port))", port_loop[0]))
+    port_loop = [st for st in au.walk_no_nested(fm.node) if isinstance(st, ast.For) and shared.prov_text(fm.node, st.iter) == "module.ports.values()"]
+    ok = len(port_loop) == 1 and isinstance(port_loop[0].target, ast.Name) and bool(shared.calls_matching(port_loop[0], f"pmod.ports.append(export_port({port_loop[0].target.id}))"))
     fp = repo.func(F_EXPORT, "export_port")
-    ok2 = bool(pat.find("pport.signal = port.name", fp.node)) and bool(pat.find("pport.direction = export_port_dir(port)", fp.node))
+    ok2 = (bool(pat.find("$P.signal = port.name", fp.node)) and bool(pat.find("$P.direction = export_port_dir(port)", fp.node))) or bool(shared.calls_matching(fp.node, "vckt.Port(signal=port.name, direction=export_port_dir(port))"))
     R.check(ok and ok2, rule, key_of(fm, "ports"), fm.site, f"one Port per module port, in order ({ok}), naming the port's own signal and direction ({ok2})", why="a port names an undeclared signal")
     fx = repo.func(F_EXPORT, "export_external_module")
     lp = [n for n in au.walk_no_nested(fx.node) if isinstance(n, ast.For) and ast.unparse(n.iter) == "emod.port_list"]
-    ok = len(lp) == 1 and bool(pat.find("vckt.Signal(name=port.name, width=port.width)", lp[0])) and bool(pat.find("pmod.ports.append(export_port(port))", lp[0])) and bool(pat.find("pmod.signals.append($S)", lp[0]))
+    ok = len(lp) == 1 and isinstance(lp[0].target, ast.Name) and bool(shared.calls_matching(lp[0], f"pmod.signals.append(vckt.Signal(name={lp[0].target.id}.name, width={lp[0].target.id}.width))")) and bool(shared.calls_matching(lp[0], f"pmod.ports.append(export_port({lp[0].target.id}))"))
     qn = bool(pat.find("vlsir.utils.QualifiedName(name=emod.name, domain=emod.domain)", fx.node))
     R.check(ok and qn, rule, key_of(fx), fx.site, f"external modules declare one signal and one port per entry of port_list, in order ({ok}), under their (name, domain) ({qn})", why="external module port order changes: positional netlists swap terminals")
 
@@ -106,30 +111,29 @@ def check(repo: Repo, R) -> None:
     rule = "C06.5-instance-targets"
     inst = set(union(repo, F_INSTANTIABLE, "InstantiableUnion"))
     h = isinstance_handled(repo, fi, subject="inst.of")
-    top = None
-    for st in fi.node.body:
-        if isinstance(st, ast.If) and ast.unparse(st.test) == "isinstance(inst.of, Module)":
-            top = st
-    falls = False
-    if top is not None:
-        cur = top
-        while len(cur.orelse) == 1 and isinstance(cur.orelse[0], ast.If):
-            cur = cur.orelse[0]
-        falls = au.raises(cur.orelse)
+    ds = au.dispatch_defaults(fi.node, "inst.of")
+    falls = bool(ds) and all(au.raises(d) for d in ds)
     R.check(inst <= h and falls, rule, key_of(fi, "dispatch"), fi.site, f"export_instance dispatches over {sorted(h)} ⊇ Instantiable {sorted(inst)}; anything else raises: {falls}", why="an instance of an unhandled target kind is exported without a module reference")
     c13.ideal_primitives(repo, R, "C06.5-instance-targets")
-    phys = bool(pat.find("pinst.module.external.domain = 'hdl21.primitives'", fi.node)) and bool(pat.find("pinst.module.external.name = call.prim.name", fi.node))
-    ide = bool(pat.find("pinst.module.external.domain = 'vlsir.primitives'", fi.node)) and bool(pat.find("pinst.module.external.name = prim_map[call.prim.name]", fi.node))
-    g = any(isinstance(n, ast.If) and ast.unparse(n.test) == "call.prim.name not in prim_map" and au.raises(n.body) for n in au.walk_no_nested(fi.node))
+    PHYS, IDEAL = "inst.of.prim.primtype == PrimitiveType.PHYSICAL", "inst.of.prim.primtype == PrimitiveType.IDEAL"
+    phys = any(shared.cond_match(fi.node, c, PHYS, True, use_prov=False) for c, _b in pat.find("pinst.module.external.domain = 'hdl21.primitives'", fi.node)) and any(shared.cond_match(fi.node, c, PHYS, True, use_prov=False) for c, _b in pat.find("pinst.module.external.name = inst.of.prim.name", fi.node))
+    mapped = [(c, b) for c, b in pat.find("pinst.module.external.name = $D[inst.of.prim.name]", fi.node) if shared.cond_match(fi.node, c, IDEAL, True, use_prov=False)]
+    ide = any(shared.cond_match(fi.node, c, IDEAL, True, use_prov=False) for c, _b in pat.find("pinst.module.external.domain = 'vlsir.primitives'", fi.node)) and len(mapped) == 1
+    # the lookup happens only for names the table has; the other case raises
+    g = ide and any(isinstance(n, ast.If) and pat.match(f"inst.of.prim.name in {ast.unparse(mapped[0][1]['D'])}", n.test) is not None and au.raises(n.orelse) and any(t is n.test and pol for t, pol in shared.path_conditions(fi.node, mapped[0][0])) for n in au.walk_no_nested(fi.node))
     R.check(phys and ide and g, rule, key_of(fi, "primitive-refs"), fi.site, f"physical primitives refer to hdl21.primitives.<name> ({phys}); ideal ones to vlsir.primitives.<mapped name> ({ide}), unknown ones raise ({g})", why="a primitive instance refers to a module no reader knows")
     conn_loop = [n for n in au.walk_no_nested(fi.node) if isinstance(n, ast.For) and ast.unparse(n.iter) == "inst.conns.items()"]
-    ok = len(conn_loop) == 1 and bool(pat.find("vckt.Connection(portname=pname, target=export_connection_target(conn))", conn_loop[0])) and bool(pat.find("pinst.connections.append($C)", conn_loop[0]))
+    ok = len(conn_loop) == 1 and isinstance(conn_loop[0].target, ast.Tuple) and len(conn_loop[0].target.elts) == 2 and bool(shared.calls_matching(conn_loop[0], "pinst.connections.append(vckt.Connection(portname={}, target=export_connection_target({})))".format(*[ast.unparse(x) for x in conn_loop[0].target.elts])))
     R.check(ok, rule, key_of(fi, "connections"), fi.site, f"one Connection per entry of inst.conns, keyed by the port name: {ok}", why="a port is connected twice or not at all in the package")
-    nm = bool(pat.find("vckt.Instance(name=inst.name)", fi.node))
+    rets = shared.returns_of(fi.node)
+    nm = bool(rets) and all(shared.prov_text(fi.node, r.value, depth=1) == "vckt.Instance(name=inst.name)" for r in rets)
     R.check(nm, rule, key_of(fi, "name"), fi.site, f"the instance keeps its own name: {nm}", why="instance names collide or change")
     fct = repo.func(F_EXPORT, "export_connection_target")
     s = fct.node.args.args[0].arg
-    ok = bool(pat.find(f"pconn.sig = {s}.name", fct.node)) and bool(pat.find(f"pslice = export_slice({s})", fct.node)) and bool(pat.find(f"pconc = export_concat({s})", fct.node))
+    def _under(c, kind):
+        return shared.cond_match(fct.node, c, f"isinstance({s}, {kind})", True, use_prov=False)
+    ok = (any(_under(c, "Signal") for c, _b in pat.find(f"$P.sig = {s}.name", fct.node)) and any(_under(c, "Slice") for c, _b in pat.find(f"$P.slice.CopyFrom(export_slice({s}))", fct.node))
+          and any(_under(c, "Concat") for c, _b in pat.find(f"$P.concat.CopyFrom(export_concat({s}))", fct.node)))
     R.check(ok, rule, key_of(fct), fct.site, f"connection targets name the connected signal / slice / concat itself: {ok}", why="connections name another signal")
 
     # ---- 6 per-call state
@@ -142,7 +146,8 @@ def check(repo: Repo, R) -> None:
             if isinstance(v, (ast.Dict, ast.List, ast.Set)) or (isinstance(v, ast.Call) and dotted(v.func) in ("dict", "list", "set", "ProtoExporter", "vckt.Package")):
                 mut.append(ast.unparse(st)[:60])
     ft = repo.func(F_EXPORT, "to_proto")
-    fresh = bool(pat.find("exporter = ProtoExporter(tops=tops, domain=domain)", ft.node)) and bool(pat.find("exporter.export()", ft.node))
+    rets = shared.returns_of(ft.node)
+    fresh = len(rets) == 1 and pat.match("ProtoExporter(tops=$T, domain=domain).export()", shared.prov(ft.node, rets[0].value, depth=1)) is not None
     init = repo.func(F_EXPORT, "ProtoExporter.__init__")
     def _assigned(target, values):
         for st in au.stmts(init.node):
